@@ -131,8 +131,49 @@ func looseCondition(m *fga.Model, t fga.Tuple) bool {
 	return true
 }
 
+// craftedLoResidual: ListObjects whose candidates need a residual Check (intersection) that is answered through a
+// DISPATCHED sub-problem (group#member -> team#member) deciding on a contextual tuple: with the query cache on, the
+// sub-problem must be cached per request context, so the same question without (or with other) contextual tuples
+// must not see it (weighted reverse expansion builds its own candidate Check requests).
+func craftedLoResidual() string {
+	this := func() *fga.Rewrite { return &fga.Rewrite{Kind: "this"} }
+	cu := func(r string) *fga.Rewrite { return &fga.Rewrite{Kind: "cu", Rel: r} }
+	u := fga.Restr{Typ: "user"}
+	m := &fga.Model{Types: []*fga.TypeDef{{Name: "user"},
+		{Name: "team", Rels: []*fga.RelDef{{Name: "member", Rewrite: this(), Restrs: []fga.Restr{u}}}},
+		{Name: "group", Rels: []*fga.RelDef{{Name: "member", Rewrite: this(), Restrs: []fga.Restr{{Typ: "team", Rel: "member"}}}}},
+		{Name: "doc", Rels: []*fga.RelDef{
+			{Name: "allowed", Rewrite: this(), Restrs: []fga.Restr{u}},
+			{Name: "via", Rewrite: this(), Restrs: []fga.Restr{{Typ: "group", Rel: "member"}}},
+			{Name: "viewer", Rewrite: &fga.Rewrite{Kind: "inter", Kids: []*fga.Rewrite{cu("allowed"), cu("via")}}},
+			{Name: "hidden", Rewrite: &fga.Rewrite{Kind: "diff", Kids: []*fga.Rewrite{cu("allowed"), cu("via")}}}}}}}
+	ts, err := typesystem.NewAndValidate(context.Background(), m.Proto(fgarun.ModelID))
+	if err != nil {
+		panic(err)
+	}
+	base := []fga.Tuple{
+		{Obj: "doc:1", Rel: "allowed", User: "user:x"}, {Obj: "doc:1", Rel: "via", User: "group:g#member"},
+		{Obj: "doc:2", Rel: "allowed", User: "user:x"}, {Obj: "doc:2", Rel: "via", User: "group:h#member"},
+		{Obj: "group:g", Rel: "member", User: "team:t#member"}, {Obj: "group:h", Rel: "member", User: "team:s#member"},
+	}
+	cA := []fga.Tuple{{Obj: "team:t", Rel: "member", User: "user:x"}}
+	cB := []fga.Tuple{{Obj: "team:s", Rel: "member", User: "user:x"}}
+	lo := func(sel, rel string) step {
+		return step{kind: "lo", sel: sel, typ: "doc", reqs: []fga.Req{{Obj: "doc:1", Rel: rel, User: "user:x"}}}
+	}
+	steps := []step{lo("a", "viewer"), lo("n", "viewer"), lo("b", "viewer"), lo("a", "hidden"), lo("n", "hidden"), lo("b", "hidden"),
+		{kind: "chk", sel: "n", reqs: []fga.Req{{Obj: "doc:1", Rel: "viewer", User: "user:x"}}}}
+	return encode(m, ts, base, cA, cB, steps)
+}
+
 func gen(r *hx.Rand, n int, tier string, emit func(string), st *hx.Stats) {
 	for i := 0; i < n; i++ {
+		if i == 2 {
+			emit(craftedLoResidual())
+			st.Inc("crafted:listobjects-residual-check-on-contextual-tuple")
+			st.Inc("histories")
+			continue
+		}
 		c := r.Fork()
 		m, ts := fga.GenModel(c, fga.DefaultOpts())
 		if c.Chance(1, 4) {
@@ -312,7 +353,7 @@ var (
 func getRigs() map[string]*rig {
 	rigsOnce.Do(func() {
 		rigs = map[string]*rig{}
-		for _, eng := range []string{"v1", "v2"} {
+		for _, eng := range []string{"v1", "v2", "lo"} {
 			ds := memory.New()
 			common := []server.OpenFGAServiceV1Option{
 				server.WithDatastore(ds),
@@ -322,6 +363,11 @@ func getRigs() map[string]*rig {
 			}
 			if eng == "v2" {
 				common = append(common, server.WithExperimentals("weighted_graph_check"))
+			}
+			if eng == "lo" {
+				// default Check engine, weighted reverse expansion for ListObjects (its residual Checks of
+				// intersections/exclusions go through the query cache)
+				common = append(common, server.WithExperimentals("enable-list-objects-optimizations"))
 			}
 			cached := server.MustNewServerWithOpts(append(append([]server.OpenFGAServiceV1Option{}, common...),
 				server.WithCheckQueryCacheEnabled(true), server.WithCheckCacheLimit(100000), server.WithCheckQueryCacheTTL(time.Hour),
@@ -617,7 +663,7 @@ func exec(line string, st *hx.Stats) string {
 	}
 	ctxOf := map[string][]fga.Tuple{"a": cA, "b": cB, "n": nil}
 	var out []string
-	for _, eng := range []string{"v1", "v2"} {
+	for _, eng := range []string{"v1", "v2", "lo"} {
 		rg := getRigs()[eng]
 		bg := context.Background()
 		mkStore := func(tuples []fga.Tuple) (string, string) {
